@@ -51,6 +51,8 @@ def run(ctx):
         # sub-query is propagated, never turned into an (empty) list that is then stored (rule of C12, cache only)
         import core
         ctx.guard("core" + tag, core.soundness, ctx, crate, crs, tag)      # see rules/core.py
+        import c04
+        ctx.guard("guarded-index" + tag, c04.guarded_index, ctx, crate, crs, tag)     # a panic under one completion order / on a warm solver is not "the same verdict"
         import c12
         ctx.guard("result-must-use" + tag, c12.results_used, ctx, crate, tag, ("resolvo::solver::cache::",), 0)
 
